@@ -247,6 +247,25 @@ def check_single(d, ck):
                         break
             except Exception as err:
                 ck.fail("det", "exception:" + type(err).__name__, c, "%s: %r" % (d, err))
+        # negative and zero determinants of small entries: also unsigned and boolean matrices have them
+        for mat in ([[1, 2], [3, 1]], [[0, 1, 1], [0, 1, 1], [1, 0, 0]], [[1, 1, 0], [0, 1, 1], [1, 0, 0]]):
+            m = numpy.array(mat).astype(d)
+            try:
+                want = complex(numpy.linalg.det(m))
+            except Exception:
+                continue
+            ck.n += 1
+            try:
+                got = complex(numpoly.det(numpoly.polynomial(m)).tonumpy())
+                gq = numpoly.det(numpoly.polynomial_from_attributes([[1]], [m]))
+                gq = {tuple(e): complex(cc) for e, cc in zip(gq.exponents.tolist(), gq.coefficients)}.get((len(mat),), 0)
+            except Exception as err:
+                ck.fail("det", "exception:" + type(err).__name__, c, "%s %s: %r" % (d, mat, err))
+                continue
+            for what, g in (("constant", got), ("times q0", gq)):
+                if abs(g - want) > 1e-9 * max(1.0, abs(want)):
+                    ck.fail("det", "value", c, "%s, %s (%s): %r, numpy.linalg.det gives %r" % (d, mat, what, g, want))
+                    break
         xs = data(d, (2, 2)) if d != "bool" else numpy.ones((2, 2), dtype=bool)
         for fname in ("matmul", "inner", "outer"):
             try:
